@@ -652,19 +652,32 @@ H_ARN = "arn:aws:states:local:0123456789:stateMachine:healthy"
 P_ARN = "arn:aws:states:local:0123456789:stateMachine:poison"
 U_ARN = "arn:aws:states:local:0123456789:stateMachine:unknown"
 HEALTHY = {"StartAt": "H1", "States": {"H1": {"Type": "Pass", "Next": "H2"}, "H2": {"Type": "Pass", "End": True}}}
+W_ARN = "arn:aws:states:local:0123456789:stateMachine:waiting"
+WAITING = {"StartAt": "W1", "States": {"W1": {"Type": "Wait", "Seconds": 5, "Next": "W2"}, "W2": {"Type": "Pass", "End": True}}}
 stubs.install_env(edm)
 
 
 class FakeMsg:
-    """The delivery as the messaging layer hands it to dispatch()."""
-    def __init__(self, body, mid):
+    """The delivery as the messaging layer hands it to dispatch().  acknowledge() has the signature and the AMQP
+    meaning of the real Message.acknowledge of both transports: multiple=True (the default) settles every
+    outstanding delivery of the channel up to and including this one."""
+    def __init__(self, body, mid, channel=None):
         self.body = body
         self.message_id = mid
         self.redelivered = False
-        self.acks = 0
+        self.acks = 0                 # basic.ack frames naming this delivery
+        self.settled_by_other = 0     # times this delivery was settled by the multiple-ack of another one
+        self.channel = channel if channel is not None else []
+        self.channel.append(self)
 
-    def acknowledge(self, multiple=False):
+    def acknowledge(self, multiple=True, threadsafe=False):
         self.acks += 1
+        if multiple:
+            for m in self.channel:
+                if m is self:
+                    break
+                if m.acks == 0 and m.settled_by_other == 0:
+                    m.settled_by_other += 1
 
 
 class World:
@@ -675,6 +688,8 @@ class World:
         del self.eng.asl_store[SM_ARN]
         h = dict(rec); h["stateMachineArn"] = H_ARN; h["name"] = "healthy"
         self.eng.asl_store[H_ARN] = h
+        wrec = dict(rec); wrec["stateMachineArn"] = W_ARN; wrec["name"] = "waiting"; wrec["definition"] = WAITING
+        self.eng.asl_store[W_ARN] = wrec
         if stored is not ABSENT:
             p = dict(rec); p["stateMachineArn"] = P_ARN; p["name"] = "poison"; p["definition"] = stored
             self.eng.asl_store[P_ARN] = p
@@ -706,10 +721,19 @@ class World:
         self.n = 0
         self.msgs = []
         self.escaped = None
+        self.channel = []
+
+    def fire_timers(self):
+        ts, self.timers = self.timers, []
+        for cb in ts:
+            try:
+                cb()
+            except Exception as e:
+                self.escaped = type(e).__name__
 
     def deliver(self, body):
         self.n += 1
-        m = FakeMsg(body, "d%d" % self.n)
+        m = FakeMsg(body, "d%d" % self.n, self.channel)
         self.msgs.append(m)
         try:
             self.ed.dispatch(m)
@@ -820,7 +844,9 @@ def poison_run(kind, sub, late):
     stubs.SeqUUID.reset()
     body, stored, pex = poison_body(kind, sub)
     w = World(stored)
-    h1 = ex_arn(H_ARN, "h1"); h2 = ex_arn(H_ARN, "h2")
+    h1 = ex_arn(H_ARN, "h1"); h2 = ex_arn(H_ARN, "h2"); h0 = ex_arn(W_ARN, "h0")
+    # a healthy execution parked in a Wait state: its event stays unacknowledged (crash protection) while the poison arrives
+    parked = w.deliver(_json.dumps(start_event(W_ARN, "h0", {"v": 0})).encode())
     w.deliver(_json.dumps(start_event(H_ARN, "h1", {"v": 1})).encode())
     if late:
         w.drain(1)
@@ -829,7 +855,13 @@ def poison_run(kind, sub, late):
         return "escaped:" + w.escaped
     if pm.acks != 1:
         return "poison-acks:%d" % pm.acks
+    if parked.acks or parked.settled_by_other:
+        return "parked-delivery-settled-by-the-poison-ack"
     w.drain()
+    w.fire_timers()                   # the Wait of h0 ends: h0 goes on and acknowledges its own event
+    w.drain()
+    if w.statuses(h0) != ["RUNNING", "SUCCEEDED"]:
+        return "healthy0:%s" % w.statuses(h0)
     w.deliver(_json.dumps(start_event(H_ARN, "h2", {"v": 2})).encode())
     w.drain()
     if w.escaped:
@@ -839,8 +871,8 @@ def poison_run(kind, sub, late):
     if w.statuses(h2) != ["RUNNING", "SUCCEEDED"] or w.output(h2) != '{"v": 2}':
         return "healthy2:%s" % w.statuses(h2)
     for m in w.msgs:
-        if m.acks != 1:
-            return "acks:%s=%d" % (m.message_id, m.acks)
+        if m.acks != 1 or m.settled_by_other:
+            return "acks:%s=%d+%d" % (m.message_id, m.acks, m.settled_by_other)
     if w.queue:
         return "poison-live"            # healthy executions fine, but the poison execution is still circulating
     if pex is not None:
